@@ -16,6 +16,7 @@ import shutil
 import signal
 import tempfile
 
+from . import scratch
 from .runner import HarnessError, SubjectFailure
 
 FAKE_PID_BASE = 5_000_000  # above pid_max (4194304)
@@ -157,7 +158,7 @@ class World:
         self.cores = cores
         self.loop = VLoop()
         self.loop.set_exception_handler(lambda loop, ctx: None)
-        self.dir = tempfile.mkdtemp(prefix="vpool", dir="/dev/shm" if os.path.isdir("/dev/shm") else None)
+        self.dir = tempfile.mkdtemp(prefix="vpool", dir=scratch.base())
         os.makedirs(os.path.join(self.dir, ".gwf", "logs"))
         self.tasks = []  # TaskModel, in submission order
         self.by_tid = {}
